@@ -41,7 +41,7 @@ ASSUMPTIONS = [
 
 
 def floors(tier):
-    return {"rel=B": 1500, "rel=A": 1500, "bf=0": 1000, "bf=1": 1000, "scaled": 1500,
+    return {"int-for-float": 300, "rel=B": 1500, "rel=A": 1500, "bf=0": 1000, "bf=1": 1000, "scaled": 1500,
             "sweep": 5000, "count>0": 300, "kwargs-permuted": 300, "single-attribute": 5000}
 
 
@@ -158,6 +158,15 @@ def check(case) -> core.Out:
         out.classes = ["skipped:empty-subset"]
         return out
     kw = {n: reported[n] for n in names if n in keep}
+    if case.get("ints") or (case.get("ints") is None and (len(payload) + sum(payload[:8])) % 3 == 0):
+        # whole numbers for scaled and floating-point attributes given as Python ints
+        for n, spec in G.expect(nodes, bf):
+            v = kw.get(n)
+            if isinstance(v, float) and v.is_integer() and abs(v) < 2 ** 53 and str(v) != "-0.0" and (
+                    spec[0] == "scaled" or spec[1][0:1] == "R"):
+                kw[n] = int(v)
+                if "int-for-float" not in classes:
+                    classes.append("int-for-float")
     if case.get("kworder") is not None and len(kw) > 1:
         # keyword arguments in a permuted order (the payload is defined by the
         # definition, not by the order in which the caller names the attributes)
@@ -235,7 +244,12 @@ def check(case) -> core.Out:
         if n not in kw:
             continue  # (keywords of group members beyond the supplied count are ignored)
         a, b = back.get(n), kw[n]
-        same = codec.float_same(a, b) if isinstance(a, float) or isinstance(b, float) else a == b
+        if isinstance(a, float) and isinstance(b, int) and not isinstance(b, bool):
+            import math
+
+            same = a == b and (b != 0 or math.copysign(1, a) == 1)  # a whole number given as an int
+        else:
+            same = codec.float_same(a, b) if isinstance(a, float) or isinstance(b, float) else a == b
         if not same:
             out.viol.append((key + f"field:{C.base_name(n)}", f"{n}: supplied {b!r}, parsed back {a!r}"))
             break
@@ -352,11 +366,19 @@ def run_shard(spec, ctx, acc):
                 tmpl = template_for(t)
                 for leaf in scaled_leaves(tmpl):
                     lo, hi = codec.int_range(leaf[2])
-                    for raw in sorted({lo, hi, 1, -1 if lo < 0 else 3, hi // 2 + 1, lo + 1, hi - 1, 29, 57, 113}):
+                    raws = {lo, hi, 1, -1 if lo < 0 else 3, hi // 2 + 1, lo + 1, hi - 1, 29, 57, 113}
+                    # raws whose scaled value is a whole number (supplied as a Python int)
+                    whole = set()
+                    if isinstance(leaf[3], (int, float)) and leaf[3]:
+                        for k_ in (1, 2, 4, 5, 8, 17, 270):
+                            r_ = round(k_ / leaf[3])
+                            if lo <= r_ <= hi and r_ and float(r_ * leaf[3]).is_integer():
+                                whole.add(r_)
+                    for raw in sorted(raws | whole):
                         if not lo <= raw <= hi:
                             continue
                         leaf[4] = raw
-                        case = dict(base, bf=1, nodes=core.jdec(core.jenc(tmpl)), subset=None)
+                        case = dict(base, bf=1, nodes=core.jdec(core.jenc(tmpl)), subset=None, ints=raw in whole)
                         o = core.checked(check, case)
                         o.classes = list(o.classes) + ["field-probe"]
                         core.handle(acc, o, case, known)
